@@ -658,3 +658,126 @@ Section Lookups.
       pose proof (Hend [] pP [] None eq_refl (Forall_nil _) eq_refl (fun a (H : In a []) => match H with end)) as Hres.
       cbn [rev] in Hres. rewrite Hfil in Hres. exact Hres.
   Qed.
+
+  (* ---------------------------------------------------------------- the supplement of the invariant *)
+
+  (* the final blocks are a parent-linked run that starts with a child of r0 or (inclusive first delivery) with
+     the starting LIB block itself *)
+  Definition fin_linked (Fin : list block) : Prop :=
+    match Fin with
+    | [] => True
+    | x :: rest => (bparent x = ri r0 \/ bid x = ri r0) /\ linked (bid x) rest
+    end.
+
+  Record Ext (s : fstate) (Fin : list block) (S : cstack) : Prop := mkExt {
+    x_linked : fin_linked Fin;
+    (* once something is final the LIB block is in the buffer *)
+    x_lib : Fin <> [] -> In (ri (libref (db s))) (keys (store (db s)));
+    (* a head means a non-empty consumer stack *)
+    x_top : last_sent s <> None -> S <> [];
+    (* final blocks inside the kept window are still in the buffer *)
+    x_kept : forall x, In x Fin -> rn (libref (db s)) - kept <= bnum x -> st s x;
+    (* once the LIB has moved nothing under the kept window is in the buffer *)
+    x_bound : libref (db s) <> r0 -> bounded (db s) kept
+  }.
+
+  Lemma ext_init m : rooted r0 m -> Ext (fs_init m) [] [].
+  Proof.
+    intros [-> | ->]; (constructor; cbn; [exact I | congruence | congruence | intros x [] | congruence]).
+  Qed.
+
+  Lemma fin_linked_app s Fin S b Fnew : Inv s Fin S -> fin_linked Fin ->
+    (linked (ri (libref (db s))) Fnew \/ (last_sent s = None /\ bid b = ri r0 /\ Fnew = [b])) ->
+    fin_linked (Fin ++ Fnew).
+  Proof.
+    intros HI HL [Hl|(Hls & Hid & ->)].
+    - pose proof (i_fin_last _ _ _ _ _ _ HI) as Hlast.
+      destruct Fin as [|x rest]; cbn [app].
+      + cbn [rev] in Hlast. rewrite Hlast in Hl. destruct Fnew as [|y Fn]; [exact I|].
+        cbn [linked] in Hl. destruct Hl as [Hp Hl]. cbn [fin_linked]. auto.
+      + cbn [fin_linked] in *. destruct HL as [H1 H2]. split; [exact H1|].
+        apply linked_join; [exact H2|]. cbn [rev] in Hlast.
+        destruct (rev rest) as [|t l]; cbn [app] in Hlast; rewrite Hlast; exact Hl.
+    - pose proof (i_head _ _ _ _ _ _ HI) as Hh. rewrite Hls in Hh. destruct Hh as (_ & -> & _).
+      cbn [app fin_linked linked]. auto.
+  Qed.
+
+  Lemma cutoff_purge d libr : cutoff (purge_before_lib (move_lib d libr) kept) kept = rn libr - kept.
+  Proof. reflexivity. Qed.
+
+  Lemma ext_step s Fin S b s' evA evI evS Fnew S' : Inv s Fin S -> Ext s Fin S -> In b U ->
+    StepW s Fin S b s' evA evI evS Fnew S' -> Ext s' (Fin ++ Fnew) S'.
+  Proof.
+    intros HI HE Hb (Happ & HI' & _ & _ & _ & _ & _ & Hmono & HFnew & _ & _ & _ & _ & _ & Hcases).
+    pose proof HI as [Hdb Hfin Hflast Hh]. pose proof Hdb as [Hnd HU Hcoh Hnum Hextra Hlc].
+    destruct HE as [XL Xlib Xtop Xkept Xbound].
+    assert (HLk : fin_linked (Fin ++ Fnew)).
+    { apply (fin_linked_app s Fin S b Fnew HI XL). destruct HFnew as [[_ H]|(H1 & H2 & H3 & _)]; [left; exact H | right; auto]. }
+    (* a block that is not dropped while the LIB has moved lies at or above the LIB *)
+    assert (Hbnum : libref (db s) <> r0 -> dropped s b = false -> rn (libref (db s)) - kept <= bnum b).
+    { intros Hne Hd. unfold dropped in Hd. destruct (last_sent s) as [hd|] eqn:Els.
+      - rewrite andb_true_r in Hd. apply N.ltb_ge in Hd. lia.
+      - destruct Hh as (_ & -> & _). cbn [rev] in Hflast. contradiction. }
+    destruct Hcases as [(-> & _ & -> & -> & _)|[(Hd & Hk & Hdb' & Hls' & _ & -> & ->)|[(Hd & Hk & Hdb' & Hls & Hls' & -> & -> & Hid)|
+                        (Hd & Hk & Hls' & HS' & _ & s3 & Hk3 & Hl3 & Hdb3 & HF3 & Hc)]]].
+    - rewrite app_nil_r. constructor; assumption.
+    - (* stored, nothing delivered *)
+      rewrite app_nil_r. constructor.
+      + exact XL.
+      + intros HF. rewrite Hdb'. cbn [new_db store libref]. rewrite keys_snoc. apply in_or_app. left. apply Xlib. exact HF.
+      + rewrite Hls'. exact Xtop.
+      + intros x Hx Hn. unfold st. rewrite Hdb' in *. cbn [new_db store libref] in *. rewrite keys_snoc. apply in_or_app. left.
+        apply Xkept; assumption.
+      + rewrite Hdb'. unfold bounded, cutoff. cbn [new_db store libref]. intros Hne. apply Forall_app. split.
+        * apply (Xbound Hne).
+        * constructor; [|constructor]. cbn [eb]. apply Hbnum; assumption.
+    - (* the inclusive first delivery *)
+      rewrite Hls in Hh. destruct Hh as (_ & -> & _). cbn [rev] in Hflast. cbn [app] in *.
+      assert (Hst : st s' b).
+      { unfold st. rewrite Hdb'. cbn [new_db store]. rewrite keys_snoc. apply in_or_app. right. left. reflexivity. }
+      constructor.
+      + exact HLk.
+      + intros _. assert (Hl' : libref (db s') = r0) by (rewrite Hdb'; exact Hflast).
+        rewrite Hl', <- Hid. exact Hst.
+      + intros _. discriminate.
+      + intros x [<-|[]] _. exact Hst.
+      + rewrite Hdb'. cbn [new_db libref]. intros Hne. contradiction.
+    - (* a triggering step *)
+      pose proof Hdb3 as [Hnd3 HU3 _ _ _ _].
+      assert (Hs3 : forall x, st s x -> st s3 x).
+      { intros x Hx. unfold st in *. rewrite Hk3. apply in_or_app. left. exact Hx. }
+      destruct Hc as [(Hsame & ->)|(libr & Hp)].
+      + rewrite app_nil_r. constructor.
+        * exact XL.
+        * intros HF. rewrite Hsame, Hl3. apply (Hs3 (mkBlock (ri (libref (db s))) 0 0 0)). apply Xlib. exact HF.
+        * intros _. exact HS'.
+        * intros x Hx Hn. unfold st. rewrite Hsame in *. apply Hs3. apply Xkept; [exact Hx|]. rewrite <- Hl3. exact Hn.
+        * rewrite Hsame. unfold bounded, cutoff. rewrite Hl3. intros Hne. apply Forall_forall. intros e He.
+          assert (Hke : In (key e) (keys (store (db s3)))) by (apply in_map; exact He).
+          rewrite Hk3 in Hke. apply in_app_or in Hke as [Hke|[Hke|[]]].
+          -- apply in_map_iff in Hke as (e0 & Ek & He0).
+             assert (eb e0 = eb e) by (apply U_uniq; [apply HU; exact He0 | apply HU3; exact He | exact Ek]).
+             pose proof (Xbound Hne) as Hb0. unfold bounded, cutoff in Hb0. rewrite Forall_forall in Hb0.
+             specialize (Hb0 e0 He0). congruence.
+          -- assert (eb e = b) by (apply U_uniq; [apply HU3; exact He | exact Hb | symmetry; exact Hke]).
+             subst b. apply Hbnum; assumption.
+      + (* the LIB moved: purge *)
+        pose proof HI' as [Hdb'' Hfin'' _ _].
+        assert (Hst' : store (db s') = filter (fun e => rn libr - kept <=? bnum (eb e)) (store (db s3))) by (rewrite Hp; reflexivity).
+        assert (Hl' : libref (db s') = libr) by (rewrite Hp; reflexivity).
+        assert (Hex' : extra (db s') = None) by (rewrite Hp; reflexivity).
+        constructor.
+        * exact HLk.
+        * intros _. pose proof (di_num _ _ _ Hdb'') as Hn. unfold num_of in Hn. rewrite Hex' in Hn.
+          destruct (find (ri (libref (db s'))) (store (db s'))) as [e|] eqn:F; [|discriminate].
+          apply find_is_some_in. eauto.
+        * intros _. exact HS'.
+        * intros x Hx Hn. rewrite Hl' in Hn, Hmono. rewrite Forall_forall in Hfin''. destruct (Hfin'' x Hx) as [HxU _].
+          assert (Hx3 : st s3 x).
+          { apply in_app_or in Hx as [Hx|Hx]; [|apply HF3; exact Hx]. apply Hs3. apply Xkept; [exact Hx | lia]. }
+          destruct (st_entry s3 x HU3 HxU Hx3) as (e & _ & Ee & He).
+          unfold st. rewrite Hst'. rewrite <- Ee. apply (in_map key). apply filter_In. split; [exact He|].
+          apply N.leb_le. rewrite Ee. exact Hn.
+        * intros _. unfold bounded, cutoff. rewrite Hl', Hst'. apply Forall_forall. intros e He.
+          apply filter_In in He as [_ He]. apply N.leb_le in He. exact He.
+  Qed.
